@@ -65,6 +65,10 @@ def obligations(ctx):
                 obs.append(Ob("big-normalize-inplace/k=%d/res=%d/a=%d" % (k, rsz, asz), c05.H, "h_vec",
                               {"K": k, "NN": 2, "RSZ": rsz, "ASZ": asz, "VIA": 1, "INPLACE": None}, c05.LIBS,
                               unwind=40, family="vec_znx_big_normalize_base2k res==a"))
+    # pointwise products with r==a or r==b (reim, reim4 and interleaved-complex vectors, reference and FMA kernels): the aliased call yields the
+    # same exact-semantics polynomial as the definition (shared analysis with C17)
+    from vf.props import c17
+    obs += [o for o in c17.kernel_obs(ctx, aliases=(1, 2)) if "/alias=" in o.name]
     return obs
 
 
